@@ -1,5 +1,7 @@
 import IceProofs.AgentC02Step
 import IceTie.AgentInbound
+import IceTie.Order
+import IceTie.Addr
 /-!
 # C02 — unauthenticated or mismatched STUN never influences the agent
 
@@ -442,5 +444,45 @@ example : IceGen.responseSymmetric true true false false = true := by decide
 example : IceGen.canHandleInbound 1 3 = false := by decide
 example : IceGen.canHandleInbound 1 2 = true := by decide
 example : IceGen.canHandleInbound 2 0 = false := by decide
+
+/-! ## more code ties (T): the source address of an inbound packet and the STUN path of `handleInboundPacket` -/
+
+/-- `netAddrToAddrPort` and `portFitsInUint16` (addr.go, regenerated): nil → the invalid zero value; a `*net.UDPAddr` and a
+`*net.TCPAddr` alike → zero for a typed nil or a port outside 0 … 65535 (65535 itself is valid), else the address's own
+`AddrPort()` (IP WITH its zone, port); anything else is parsed from its string.  So a real UDP/TCP source address is never
+turned into an invalid source (which `handleInbound` would drop) -/
+theorem C02_code_netAddrToAddrPort (isNil isUDPAddr isTCPAddr typedNil : Bool) (port : Int64) (parseFails : Bool) :
+    IceGen.portFitsInUint16 port = decide (0 ≤ port.toInt ∧ port.toInt ≤ 65535) ∧
+    IceGen.netAddrToAddrPort isNil isUDPAddr isTCPAddr typedNil port parseFails
+      = (if isNil then "zero"
+        else if isUDPAddr || isTCPAddr then
+          (if typedNil || !decide (0 ≤ port.toInt ∧ port.toInt ≤ 65535) then "zero" else "a.AddrPort()")
+        else if parseFails then "zero" else "ParseAddrPort(addr.String())") ∧
+    ((isUDPAddr || isTCPAddr) = true → 0 ≤ port.toInt → port.toInt ≤ 65535 →
+      IceGen.netAddrToAddrPort false isUDPAddr isTCPAddr false port parseFails = "a.AddrPort()") :=
+  ⟨IceTie.Addr.portFitsInUint16_tie port, IceTie.Addr.netAddrToAddrPort_tie isNil isUDPAddr isTCPAddr typedNil port parseFails,
+   IceTie.Addr.netAddrToAddrPort_valid isUDPAddr isTCPAddr port parseFails⟩
+
+/-- `toAddrPortKey` (the 18-byte key of the address maps): an invalid address is the zero key, otherwise the 16 address bytes and
+the port big endian; two different ports never share their two bytes -/
+theorem C02_code_toAddrPortKey (valid : Bool) (port q : UInt16) :
+    IceGen.toAddrPortKey valid port
+      = (if valid then
+          ([IceModel.Eff.call "copy(ap[:16], As16)" [], IceModel.Eff.set "ap[16]" (IceModel.Val.n (port.toNat / 256)),
+            IceModel.Eff.set "ap[17]" (IceModel.Val.n (port.toNat % 256))], "ap")
+        else ([], "ap")) ∧
+    ((port.toNat / 256, port.toNat % 256) = (q.toNat / 256, q.toNat % 256) → port = q) :=
+  ⟨IceTie.Addr.toAddrPortKey_tie valid port, IceTie.Addr.toAddrPortKey_port_injective port q⟩
+
+/-- the STUN path of `candidateBase.handleInboundPacket` (regenerated in effect mode): a STUN message is handed to the STUN
+handler and NOTHING else happens — in particular the data-plane cache is not probed (nor filled) for it -/
+theorem C02_code_stun_path (cacheHit valid writeFails : Bool) (n : Int64) (hasSelected : Bool) :
+    IceGen.candidateBase_handleInboundPacket true cacheHit valid writeFails n hasSelected
+      = [IceTie.Order.c "handleInboundSTUNMessage"] :=
+  (IceTie.Order.handleInboundPacket_order cacheHit valid writeFails n hasSelected).1
+
+example : IceGen.portFitsInUint16 65535 = true ∧ IceGen.portFitsInUint16 65536 = false ∧ IceGen.portFitsInUint16 (-1) = false ∧
+    IceGen.netAddrToAddrPort false false true false 65535 false = "a.AddrPort()" ∧
+    IceGen.netAddrToAddrPort false true false false 70000 false = "zero" := by decide
 
 end IceProps.C02
